@@ -1,4 +1,4 @@
-(* Model of Roller.Dial (u_roller.go:64-127, sameHelloID :45-62) as a pure
+(* Model of Roller.Dial (u_roller.go:73-121, sameHelloID :49-64) as a pure
    function of: the configured ids, the shuffled copy (any permutation; the
    shuffle's randomness is an input), the remembered working id, whether each
    TCP dial succeeds, the seeds the library generates for unseeded randomized
@@ -17,7 +17,7 @@ Record hid := mkHid { rnd : bool; base : N; seed : option N }.
 Definition oN_eqb (a b : option N) : bool :=
   match a, b with Some x, Some y => x =? y | None, None => true | _, _ => false end.
 
-(* sameHelloID, u_roller.go:45-62 *)
+(* sameHelloID, u_roller.go:49-64 *)
 Definition hid_eqb (a b : hid) : bool :=
   Bool.eqb (rnd a) (rnd b) && (base a =? base b) && oN_eqb (seed a) (seed b).
 
@@ -33,7 +33,7 @@ Definition unseeded (x : hid) : bool :=
 Definition conn_id (gen : nat -> N) (k : nat) (x : hid) : hid :=
   if unseeded x then mkHid true (base x) (Some (gen k)) else x.
 
-(* lines 80-98: move the working id to the front (swap with slot 0), or prepend it *)
+(* lines 80-96: move the working id to the front (swap with slot 0), or prepend it *)
 Fixpoint index_of (w : hid) (l : list hid) : option nat :=
   match l with
   | [] => None
@@ -60,7 +60,7 @@ Definition prioritise (sh : list hid) (working : option hid) : list hid :=
 Inductive peer_beh := Serve (d : N) | Refuse (d : N) | Silent.
 Inductive hsres := HsOk | HsRejected | HsTimeout.
 
-(* lines 111-114: SetDeadline(time.Now().Add(TlsHandshakeTimeout)); Handshake().
+(* lines 108-109: SetDeadline(time.Now().Add(TlsHandshakeTimeout)); Handshake().
    Returns how the handshake ends and the time at which it ends. *)
 Definition handshake (now T : N) (b : peer_beh) : hsres * N :=
   let deadline := now + T in
@@ -85,7 +85,7 @@ Inductive outcome := Connected (i : hid) | TcpError (attempt : nat) | AllFailed 
 Section Loop.
   Variables (tcp_ok : nat -> bool) (gen : nat -> N) (T : N) (peer : hid -> peer_beh).
 
-  (* lines 102-126; k = number of TCP dials made so far, now = current time.
+  (* lines 98-120; k = number of TCP dials made so far, now = current time.
      Result: the configured ids tried, the fingerprints sent with the way
      their handshake ended, and how the call ends. *)
   Fixpoint attempt_loop (order : list hid) (k : nat) (now : N)
@@ -97,7 +97,7 @@ Section Loop.
       else
         let f := conn_id gen k x in
         match handshake now T (peer f) with
-        | (HsOk, _) => ([x], [(f, HsOk)], Connected f)          (* WorkingHelloID = &client.ClientHelloID *)
+        | (HsOk, _) => ([x], [(f, HsOk)], Connected f)          (* line 116: WorkingHelloID = &client.ClientHelloID *)
         | (o, now') =>
           match attempt_loop r (S k) now' with
           | (tr, wi, res) => (x :: tr, (f, o) :: wi, res)
